@@ -109,6 +109,8 @@ def body_text(body, attr):
         "rename_pascal": f'#[{a}(rename_all = "PascalCase")]', "rename_camel": f'#[{a}(rename_all = "camelCase")]',
         "rename_snake": f'#[{a}(rename_all = "snake_case")]', "rename_scream": f'#[{a}(rename_all = "SCREAMING_SNAKE_CASE")]',
         "rename_kebab": f'#[{a}(rename_all = "kebab-case")]', "rename_screamkebab": f'#[{a}(rename_all = "SCREAMING-KEBAB-CASE")]',
+        "legacy_fmt_int": f"#[{a}(fmt = 1)]", "legacy_fmt_none": f"#[{a}(fmt =)]", "legacy_fmt_nonstr": f'#[{a}(fmt = 1.5, b"x", true)]',
+        "legacy_fmt_only_args": f"#[{a}(fmt, a, b)]",
         "word_repr": f"#[{a}(repr)]", "word_forward": f"#[{a}(forward)]", "word_skip": f"#[{a}(skip)]",
     }[body]
 
